@@ -75,6 +75,8 @@ def enc(v, rt):
         return [1] + enc(v, rt[1])
     if k == 'bytes':
         return [len(v)] + [int(b) for b in v]
+    if k == 'addrdesc_pa':
+        return [int(v.paddress.physicaladdress), int(v.paddress.ns)]
     if k == 'addrdesc':
         m = v.memattrs
         return [int(m.type.value), int(m.innerattrs), int(m.outerattrs), int(m.innerhints), int(m.outerhints),
